@@ -9,13 +9,28 @@ import (
 	"strings"
 )
 
+// verifC02Bytes reads a part from memory or from its spill file without
+// caching it in File.Pkg (readBytes would).
+func verifC02Bytes(f *File, name string) []byte {
+	if b := f.readXML(name); len(b) != 0 {
+		return b
+	}
+	file, err := f.readTemp(name)
+	if err != nil || file == nil {
+		return nil
+	}
+	defer file.Close()
+	b, _ := io.ReadAll(file)
+	return b
+}
+
 // verifC02Strings returns the shared string items without touching the File.
 func verifC02Strings(f *File) []xlsxSI {
 	if f.SharedStrings != nil {
 		return f.SharedStrings.SI
 	}
 	var sst xlsxSST
-	b := f.readXML(defaultXMLPathSharedStrings)
+	b := verifC02Bytes(f, defaultXMLPathSharedStrings)
 	if len(b) == 0 {
 		return nil
 	}
@@ -116,7 +131,7 @@ func VerifC02Part(f *File, sheet string) string {
 	if !ok {
 		return "ERR"
 	}
-	content := f.readBytes(name)
+	content := verifC02Bytes(f, name)
 	if len(content) == 0 {
 		return "part none"
 	}
